@@ -3,8 +3,11 @@
    (1) the lock discipline itself: in the thread/mutex model of Model/Conc.v, if every method
        body runs between Acquire and Release, the invariant "a thread is inside a body iff it
        holds the lock" holds in every reachable configuration, so at most one thread is ever
-       inside a body and only the lock holder's steps change the guarded state — executions
-       are sequences of whole bodies in lock-acquisition order;
+       inside a body and only the lock holder's steps change the guarded state; and along every
+       execution, whenever the lock is free, the shared state IS the sequential execution of the
+       bodies acquired so far, in acquisition order, each once and whole, every thread's bodies
+       in its program order (C07_serialisable): no update lost or applied twice, the outcome
+       equals a sequential ordering of the calls;
    (2) the obligation that the CODE follows the discipline: Generated/LockFacts.v is rewritten
        from /repo's sources on every run by the translator (/verif/lockfacts); C07_facts_ok
        re-checks, by computation on the regenerated facts, that every exported method of the five
@@ -15,7 +18,7 @@
        breaks C07_facts_ok. *)
 From Coq Require Import List String Bool.
 From GX.Model Require Import Conc.
-From GX.Proofs Require Import ConcProofs.
+From GX.Proofs Require Import ConcProofs ConcSerial.
 From GX.Generated Require Import LockFacts KnownUnlocked.
 Import ListNotations.
 Open Scope string_scope.
@@ -55,8 +58,27 @@ Theorem C07_only_holder_changes_state : forall (S : Type) i (c c' : config S),
   mutex_inv S c -> step S i c c' -> c_shared S c' <> c_shared S c -> c_holder S c = Some i.
 Proof. exact only_holder_changes_state. Qed.
 
+(* serialisability: for any number of threads, any programs, any schedule *)
+Theorem C07_serialisable : forall (S : Type) (c0 : config S) log c,
+  initial S c0 -> mutex_inv S c0 -> reach S c0 log c -> c_holder S c = None ->
+  c_shared S c = apply_log S log (c_shared S c0) /\
+  forall j t, nth_error (c_threads S c) j = Some t ->
+    exists t0, nth_error (c_threads S c0) j = Some t0 /\
+      (calls_of S j log ++ pending S t ++ t_calls S t = t_calls S t0)%list.
+Proof. exact serialisable. Qed.
+
+Theorem C07_complete_execution : forall (S : Type) (c0 : config S) log c,
+  initial S c0 -> mutex_inv S c0 -> reach S c0 log c -> c_holder S c = None ->
+  (forall j t, nth_error (c_threads S c) j = Some t -> t_pc S t = Idle S /\ t_calls S t = []) ->
+  c_shared S c = apply_log S log (c_shared S c0) /\
+  forall j t, nth_error (c_threads S c) j = Some t ->
+    exists t0, nth_error (c_threads S c0) j = Some t0 /\ calls_of S j log = t_calls S t0.
+Proof. exact complete_execution. Qed.
+
 Print Assumptions C07_facts_ok.
 Print Assumptions C07_core_methods_locked.
 Print Assumptions C07_mutex_invariant_preserved.
 Print Assumptions C07_at_most_one_inside.
 Print Assumptions C07_only_holder_changes_state.
+Print Assumptions C07_serialisable.
+Print Assumptions C07_complete_execution.
